@@ -40,3 +40,4 @@ INIT Init
 NEXT Next
 CHECK_DEADLOCK FALSE
 INVARIANTS TypeOK C01_RunningCount C01_NoHandlerUnlessRunning C07_NoCtxNoModules C02_AutoFree C02_CopyAccounting C02_NoMailUnlessActive 
+PROPERTIES C07_NoJoinAfterFinalize
